@@ -26,11 +26,12 @@ from proxy.http.proxy import HttpProxyBasePlugin            # noqa: E402
 PROPERTY = 'C08'
 LEVEL = 'exploration'
 LEVEL_TEXT = ('Exploration: seeded (credential x request) cases - credentials ASCII / UTF-8 / with colons / long; requests '
-              'with the header absent, other schemes, the exact credentials under every scheme casing, header-name casing '
+              'with the header absent, other schemes (incl. pieces and decorations of the word "basic"), the exact credentials under every scheme casing, header-name casing '
               'and legal whitespace, near-miss tokens (every single-character substitution class, truncation, extension, '
               'padding variants, url-safe alphabet, case flips, junk a lenient base64 decoder ignores, non-canonical '
               'trailing bits), parameters, duplicated lines; all methods incl. CONNECT, absolute and authority targets, '
-              '3 segmentations; 0-2 recording plugins after the auth plugin; keep-alive follow-ups with and without the '
+              '3 segmentations; 0-2 recording plugins after the auth plugin (with TLS interception configured as well, where '
+              'do_intercept counts as a request hook); keep-alive follow-ups with and without the '
               'header. Every execution is judged against a reference predicate on what the origin, the client, the '
               'audit hook and the recording plugins observed.')
 LEVEL_NOTE = ('Trusted: sys.addaudithook for connect/getaddrinfo, the harness resolver log, h11, the reference predicate in '
